@@ -63,6 +63,11 @@ def header_list(spelling, container, post):
         # mapping is empty - which must not be mistaken for "no headers given" (the manager's defaults would return)
         return [list((spell(k, spelling), v)) for k, v in SENSITIVE if k.lower() in DEFAULT_SET]
     hs = [(spell(k, spelling), v) for k, v in SENSITIVE] + list(INNOCUOUS)
+    if container == "dict2":
+        # a case-sensitive mapping that holds every sensitive field under TWO spellings ({**session, **call} of
+        # differently spelt dicts): both lines go out with the first request, both are the same field
+        other = "lower" if spelling != "lower" else "canonical"
+        hs += [(spell(k, other), v + "-2") for k, v in SENSITIVE if spell(k, other) != spell(k, spelling)]
     if container == "hd":
         hs += [(spell(k, spelling) if k == "Cookie" else k, v) for k, v in REPEATS]
     if post:
@@ -272,6 +277,9 @@ def configs(thorough):
             for cont in ("dict", "hd"):
                 for pl in extra_placements():
                     out.append(("M", client, sp, cont, pl, "GET", 0))
+        for sp in ("canonical", "upper", "lower"):
+            for pl in policy_placements():
+                out.append(("M", client, sp, "dict2", pl, "GET", 0))
         # start on a non-default port: a scheme change then keeps host AND port (http://a.test:8080 -> https://a.test:8080),
         # so nothing but the scheme tells the two origins apart
         out.append(("M", client, "canonical", "dict", (NOT_GIVEN, NOT_GIVEN), "GET", 0, "hax"))
@@ -285,6 +293,11 @@ def configs(thorough):
         # must be refused all the same
         for start in ("had", "sad"):
             out.append(("P", client, "canonical", "dict", (NOT_GIVEN, NOT_GIVEN), "GET", start, 1))
+    # a pool built from the host alone (port None = the scheme's default): another port of the same host is another origin
+    for sp in ("canonical", "lower"):
+        for cont in ("dict", "hd"):
+            for start in ("had", "sad"):
+                out.append(("P", "HTTPConnectionPool", sp, cont, (NOT_GIVEN, NOT_GIVEN), "GET", start, 0, "noport"))
     return out
 
 
@@ -311,7 +324,8 @@ def make_case(cfg, hops):
     return {"client": client, "start": cfg[6] if kind == "P" else (cfg[7] if len(cfg) > 7 else "had"), "hops": hops, "mode": "c", "method": method,
             "break_first": cfg[6] if kind == "M" else cfg[7],
             "body": b"payload" if post else None, "headers": header_list(sp, cont, post), "header_container": cont,
-            "spelling": sp, "req_policy": pl[0], "ctor_policy": pl[1], "redirect_kw": NOT_GIVEN}
+            "spelling": sp, "req_policy": pl[0], "ctor_policy": pl[1], "redirect_kw": NOT_GIVEN,
+            "pool_port": "omitted" if (kind == "P" and len(cfg) > 8 and cfg[8] == "noport") else "given"}
 
 
 CHUNK = 1000
